@@ -603,3 +603,6 @@ PROPS["C08"]["proofs"] = PROPS["C08"]["proofs"] + ["Bmc.Proofs.EndToEnd.RoundTri
 PROPS["C08"]["claim"] += (" END TO END: generated_{message,v1,v2,aes,rakp1}_roundtrip (Proofs/EndToEnd/RoundTripC08.lean) — SerializeTo AS TRANSLATED ON THIS RUN, over any stale "
                           "buffer, produces bytes which DecodeFromBytes AS TRANSLATED ON THIS RUN, from any receiver content on any Go slice showing those bytes, turns back "
                           "into the serialised fields and the inner payload (every mac, every lawful block cipher, every length).")
+PROPS["C06"]["proofs"] = PROPS["C06"]["proofs"] + ["Bmc.Proofs.EndToEnd.RequestsC06"]
+PROPS["C06"]["claim"] += (" END TO END: generated_*_request (Proofs/EndToEnd/RequestsC06.lean; 16 theorems over the 14 request layers) — each SerializeTo AS TRANSLATED ON THIS RUN, "
+                          "over any stale buffer, produces bytes the independent reference parser reads as exactly the caller's fields, for all values fitting the wire width.")
